@@ -15,8 +15,9 @@ What is transcribed:
   escape is an error wherever the string is *read* but is tolerated where the value is *skipped*
   (unknown field): the reader returns `Json.junk` for such a token, which no typed position
   accepts;
-* arrays and objects with `,` separators, no trailing comma, keys must be strings (and are always
-  read strictly); after the top-level value only white space may follow.
+* arrays and objects with `,` separators, no trailing comma, keys must be strings; an object with
+  a key that has an unpaired surrogate escape is itself junk (fine inside a skipped value, an
+  error for every struct visitor); after the top-level value only white space may follow.
 
 Not modelled: floats outside the range of `f64` (`1e999` is an error for serde_json where the
 number is read, not where it is skipped) – the differential generator keeps exponents small;
@@ -175,6 +176,19 @@ def stripPrefix : List Char → List Char → Option (List Char)
   | _ :: _, [] => none
   | p :: ps, c :: cs => if p = c then stripPrefix ps cs else none
 
+/-- all keys readable? -/
+def collectKeys : List (Option String × Json) → Option (List (String × Json))
+  | [] => some []
+  | (some k, v) :: r => (collectKeys r).map fun kvs => (k, v) :: kvs
+  | (none, _) :: _ => none
+
+/-- An object one of whose keys carries an unpaired surrogate escape can only be skipped: struct
+visitors and the buffering of untagged enums read every key strictly. -/
+def objOfMembers (ms : List (Option String × Json)) : Json :=
+  match collectKeys ms with
+  | some kvs => .obj kvs
+  | none => .junk
+
 mutual
 /-- one value, leading white space allowed -/
 def parseValue : Nat → List Char → Option (Json × List Char)
@@ -212,7 +226,7 @@ def parseValue : Nat → List Char → Option (Json × List Char)
             match parseMember fuel r with
             | some (kv, r1) =>
               match parseMembers fuel r1 with
-              | some (kvs, r2) => some (.obj (kv :: kvs), r2)
+              | some (kvs, r2) => some (objOfMembers (kv :: kvs), r2)
               | none => none
             | none => none
       else if c = '-' ∨ isDigit c then parseNumber (c :: r)
@@ -233,8 +247,8 @@ def parseElems : Nat → List Char → Option (List Json × List Char)
         | none => none
       else if c = ']' then some ([], r)
       else none
-/-- `"key" : value` – the key is always read strictly -/
-def parseMember : Nat → List Char → Option ((String × Json) × List Char)
+/-- `"key" : value`; a key with an unpaired surrogate escape is `none` -/
+def parseMember : Nat → List Char → Option ((Option String × Json) × List Char)
   | 0, _ => none
   | fuel + 1, cs =>
     match skipWs cs with
@@ -242,7 +256,7 @@ def parseMember : Nat → List Char → Option ((String × Json) × List Char)
     | c :: r =>
       if c = '"' then
         match parseStrBody r [] true none with
-        | some (some k, r1) =>
+        | some (k, r1) =>
           match skipWs r1 with
           | [] => none
           | c2 :: r2 =>
@@ -251,10 +265,10 @@ def parseMember : Nat → List Char → Option ((String × Json) × List Char)
               | some (v, r3) => some ((k, v), r3)
               | none => none
             else none
-        | _ => none
+        | none => none
       else none
 /-- after a member: `,` member … `}` -/
-def parseMembers : Nat → List Char → Option (List (String × Json) × List Char)
+def parseMembers : Nat → List Char → Option (List (Option String × Json) × List Char)
   | 0, _ => none
   | fuel + 1, cs =>
     match skipWs cs with
